@@ -786,6 +786,8 @@ def sim_tie(env, results, driver_ok=True, window=4096):
                     o = e2e.const_value(m, seg.offset, imp) & 0xFFFFFFFF
                     want.append((o, min(len(seg.data), 512)))
             want += [(o, len(bs)) for o, bs in rr_runs]
+            # widen by one f64 cell on both sides (a NaN's zero bytes are not part of a non-zero run)
+            want = [(max(0, o - 8), min(size, o + n + 8) - max(0, o - 8)) for o, n in want]
             for o, n in want:
                 if n > 0 and o + n <= size:
                     peeks.append((len(lines), o, n))
@@ -916,7 +918,9 @@ def sim_tie(env, results, driver_ok=True, window=4096):
                     mb = bytes.fromhex(a[6:].strip())
                     rb = real_bytes(o, n)
                     out["memory_bytes_compared"] += n
-                    if mb != rb and not (tainted and nan_only_diff(mb, rb)):
+                    if mb != rb and nan_only_diff(mb, rb):
+                        out["nan_payload_leaks_tolerated"] = out.get("nan_payload_leaks_tolerated", 0) + 1
+                    elif mb != rb:
                         k = next(i for i in range(n) if mb[i] != rb[i])
                         bad("final memory at %d" % (o + k), model=mb[k:k + 16].hex(), real=rb[k:k + 16].hex())
                         break
